@@ -18,7 +18,7 @@
   re-listing after a 410 or a reconnect backoff) are ignored.
   (`resource_observer` does the same for CRDs, except that any event re-scans the whole API group, so a
   missed CRD change is healed by the next CRD event of that group; not modelled separately.)
-  Patterns are left out: the keys are the namespaces that match the operator's patterns.
+  Patterns: `evView` is over the namespaces that match the operator's patterns; `reviseNs` carries the verdict per item.
   Core Lean only.
 -/
 import Kopf.Model.C19_Watch
@@ -48,19 +48,24 @@ def OnlyChanges (pre : List Act) : Prop := ∀ a ∈ pre, ∃ k kind vis, a = Ac
           matched  = any(match_namespace(name, pattern) …)
           deleted  = is_deleted(raw_event)                # type == 'DELETED', or deletionTimestamp AND status.conditions
           blockers = get_blockers(raw_event)              # the conditions with status 'True'
-          if deleted and blockers:   (log only)           # Terminating, content / finalizers remain: NOTHING changes
+          if deleted and blockers:   (log)                # Terminating, content / finalizers remain:
+              if matched and raw_event['type'] != 'DELETED':
+                  insights.namespaces.add(namespace)      #   it still exists: served, also at first sight (kopf 40faad4)
           elif deleted:              insights.namespaces.discard(namespace)
           elif matched:              insights.namespaces.add(namespace)
 
   Kubernetes never deletes a namespace at once: it is marked (deletionTimestamp), the namespace controller writes
   its conditions (NamespaceContentRemaining / NamespaceFinalizersRemaining = True while objects — e.g. those
   carrying the operator's own finalizers — are still there), and only when nothing remains the object goes.
-  `NsMark` is that reading of a namespace body; keys are the namespaces that match the patterns. -/
+  `NsMark` is that reading of a namespace body; `matched` is the verdict of the operator's patterns on the name
+  (pattern matching itself: `references.match_namespace`, not modelled; the tie feeds an independent matcher's verdict). -/
 
 inductive NsMark where
   | live        -- no deletionTimestamp, or no status.conditions yet
   | blocked     -- marked for deletion, some condition is 'True': content / finalizers remain
   | finishing   -- marked for deletion, conditions present, none 'True'
+  | odd         -- a condition is 'True' but there is no deletionTimestamp (no namespace controller writes that; `get_blockers`
+                --   does not look at the mark, so a DELETED event with such a body is only logged)
   deriving DecidableEq, Repr
 
 /-- one listed body or raw event handed to `revise_namespaces` -/
@@ -68,26 +73,53 @@ structure NsEv where
   gone : Bool        -- raw_event['type'] == 'DELETED'
   mark : NsMark
   key : Nat
+  matched : Bool     -- any(match_namespace(name, pattern) for pattern in namespaces)
   deriving DecidableEq, Repr
 
 /-- `is_deleted` -/
-def NsEv.deleted (e : NsEv) : Bool := e.gone || e.mark != .live
+def NsEv.deleted (e : NsEv) : Bool := e.gone || e.mark == .blocked || e.mark == .finishing
 
 /-- `bool(get_blockers(raw_event))` -/
-def NsEv.blockers (e : NsEv) : Bool := e.mark == .blocked
+def NsEv.blockers (e : NsEv) : Bool := e.mark == .blocked || e.mark == .odd
+
+/-- `insights.namespaces.add` on a duplicate-free list -/
+def nsAdd (served : List Nat) (k : Nat) : List Nat := if served.contains k then served else k :: served
 
 /-- one iteration of the loop of `revise_namespaces` (`insights.namespaces` as a duplicate-free list) -/
 def reviseNs (served : List Nat) (e : NsEv) : List Nat :=
-  if e.deleted && e.blockers then served
+  if e.deleted && e.blockers then (if e.matched && !e.gone then nsAdd served e.key else served)
   else if e.deleted then served.filter (fun k => k != e.key)
-  else if served.contains e.key then served else e.key :: served
+  else if e.matched then nsAdd served e.key else served
 
 def reviseAll (served : List Nat) : List NsEv → List Nat
   | [] => served
   | e :: es => reviseAll (reviseNs served e) es
 
+/-- The loop before kopf 40faad4 (`if deleted and blockers: log only`), kept for the regression theorem
+    `old_revise_unserved_at_first_sight_regression`. -/
+def reviseNsOld (served : List Nat) (e : NsEv) : List Nat :=
+  if e.deleted && e.blockers then served
+  else if e.deleted then served.filter (fun k => k != e.key)
+  else if e.matched then nsAdd served e.key else served
+
+def reviseAllOld (served : List Nat) : List NsEv → List Nat
+  | [] => served
+  | e :: es => reviseAllOld (reviseNsOld served e) es
+
 /-- An event (or listed body) that says "this namespace exists": it is not a DELETED event, and the body is live
     or Terminating with something remaining. -/
 def NsEv.exists_ (e : NsEv) : Bool := !e.gone && e.mark != .finishing
+
+/-- An item that `revise_namespaces` only logs: a DELETED event whose body still carries a True condition. (Outside
+    the namespace controller's contract: the conditions are all False before the object is removed.) -/
+def NsEv.mute (e : NsEv) : Bool := e.gone && e.blockers
+
+/-- the last item about namespace `k` that is not mute, if any — its "last word" -/
+def lastWord (k : Nat) : List NsEv → Option NsEv
+  | [] => none
+  | e :: es =>
+      match lastWord k es with
+      | some l => some l
+      | none => if e.key = k && !e.mute then some e else none
 
 end Kopf.C19
